@@ -37,6 +37,8 @@ func be32At(b *Expr, off int64) *Expr {
 func checkC18(c *Check) {
 	p := c.P
 	c.flagAccessors("C18.1 flag-accessors")
+	c.attrErrData("C18.2 fallback-data")
+	c.accumulatorsStartEmpty("C18.3 accumulators", "decodeUint32Set", "decodeLargeCommunitySet", "ClusterListPathAttr.Decode", "CommunitiesPathAttr.Decode", "LargeCommunitiesPathAttr.Decode")
 	c.specConstants("C18.1 spec-constants", "NOTIF_CODE_UPDATE_MESSAGE_ERR", "NOTIF_SUBCODE_MALFORMED_ATTR_LIST", "NOTIF_SUBCODE_UNRECOGNIZED_WELL_KNOWN_ATTR", "NOTIF_SUBCODE_MISSING_WELL_KNOWN_ATTR", "NOTIF_SUBCODE_ATTR_FLAGS_ERR", "NOTIF_SUBCODE_ATTR_LEN_ERR", "NOTIF_SUBCODE_INVALID_ORIGIN_ATTR", "NOTIF_SUBCODE_INVALID_NEXT_HOP_ATTR", "NOTIF_SUBCODE_OPTIONAL_ATTR_ERR", "NOTIF_SUBCODE_INVALID_NETWORK_FIELD", "NOTIF_SUBCODE_MALFORMED_AS_PATH", "PATH_ATTR_ORIGIN", "PATH_ATTR_AS_PATH", "PATH_ATTR_NEXT_HOP", "PATH_ATTR_MED", "PATH_ATTR_LOCAL_PREF", "PATH_ATTR_ATOMIC_AGGREGATE", "PATH_ATTR_AGGREGATOR", "PATH_ATTR_COMMUNITY", "PATH_ATTR_ORIGINATOR_ID", "PATH_ATTR_CLUSTER_LIST", "PATH_ATTR_MP_REACH_NLRI", "PATH_ATTR_MP_UNREACH_NLRI", "PATH_ATTR_LARGE_COMMUNITY")
 	c.flagsValidate("C18.1 flags-validate")
 	addrOf := func(lo int64) func(c *Check, fn *ssa.Function, st *State, b *Expr) (bool, string) {
@@ -78,7 +80,14 @@ func checkC18(c *Check) {
 		{"NextHopPathAttr", "PATH_ATTR_NEXT_HOP", false, true, "=4", "TreatAsWithdraw", addrOf(0)},
 		{"MEDPathAttr", "PATH_ATTR_MED", true, false, "=4", "TreatAsWithdraw", u32},
 		{"LocalPrefPathAttr", "PATH_ATTR_LOCAL_PREF", false, true, "=4", "TreatAsWithdraw", u32},
-		{"AtomicAggregatePathAttr", "PATH_ATTR_ATOMIC_AGGREGATE", false, true, "=0", "AttrDiscard", nil},
+		{"AtomicAggregatePathAttr", "PATH_ATTR_ATOMIC_AGGREGATE", false, true, "=0", "AttrDiscard", func(c *Check, fn *ssa.Function, st *State, b *Expr) (bool, string) {
+			v := storedValue(fn, st)
+			cv, isC := int64(0), false
+			if v != nil {
+				cv, isC = st.rangeOf(v).IsConst()
+			}
+			return isC && cv == 1, "the attribute's presence is recorded (true)"
+		}},
 		{"AggregatorPathAttr", "PATH_ATTR_AGGREGATOR", true, true, "=8", "AttrDiscard", func(c *Check, fn *ssa.Function, st *State, b *Expr) (bool, string) {
 			recv := paramExpr(fn, 0)
 			as := c.P.loadField(st, recv, "AggregatorPathAttr", "AS")
@@ -110,7 +119,11 @@ func checkC18(c *Check) {
 			return ok, "the value is decodeUint32Set(all value octets)"
 		}},
 		{"OriginatorIDPathAttr", "PATH_ATTR_ORIGINATOR_ID", true, false, "=4", "TreatAsWithdraw", addrOf(0)},
-		{"ClusterListPathAttr", "PATH_ATTR_CLUSTER_LIST", true, false, "mult4", "TreatAsWithdraw", nil},
+		{"ClusterListPathAttr", "PATH_ATTR_CLUSTER_LIST", true, false, "mult4", "TreatAsWithdraw", func(c *Check, fn *ssa.Function, st *State, b *Expr) (bool, string) {
+			// the list built by the element loop (C18.3 nothing-lost) is what is stored
+			v := storedValue(fn, st)
+			return v != nil && !v.IsNil(), "the decoded list is stored into the attribute"
+		}},
 		{"LargeCommunitiesPathAttr", "PATH_ATTR_LARGE_COMMUNITY", true, true, "mult12", "TreatAsWithdraw", func(c *Check, fn *ssa.Function, st *State, b *Expr) (bool, string) {
 			if !c.P.HasFn("decodeLargeCommunitySet") {
 				return true, "element loop in the decoder itself (C18.3 nothing-lost)"
@@ -414,6 +427,28 @@ func (c *Check) asPathSegments(ruleV, ruleL string) {
 			return lenAtLeastOneHook(e)
 		}), init: nonEmpty, forbid: forbidAccept},
 	})
+	// a segment lands in the list of its own type: AS_SET (1) in ASSet,
+	// AS_SEQUENCE (2) in ASSequence
+	for _, k := range []struct {
+		typ         int64
+		want, other string
+	}{{1, "ASSet", "ASSequence"}, {2, "ASSequence", "ASSet"}} {
+		a := NewAnalysis(p, fn)
+		a.AtomHook = hooks(valOK, rangeHook(segType, isConst(k.typ)))
+		a.Init = nonEmpty
+		a.Run()
+		wrote, wrong := false, false
+		for _, r := range a.Returns {
+			if r.State.may["store:"+k.want] {
+				wrote = true
+			}
+			if r.State.may["store:"+k.other] {
+				wrong = true
+			}
+		}
+		c.require(wrote && !wrong, ruleV, "ASPathAttr.Decode", fmt.Sprintf("segment type %d goes to %s", k.typ, k.want), p.Pos(fn.Pos()),
+			"the AS numbers of a segment are appended to the list of that segment's type and to no other")
+	}
 	// accumulation: stores to ASSet / ASSequence inside the loop append to the previous value
 	n := 0
 	allInstrs(fn, func(in ssa.Instruction) {
@@ -494,6 +529,58 @@ func (c *Check) setDecoders(rule string) {
 		}
 		// unconditional append: the append's block dominates the back edge
 		c.require(okA && adv, rule, s.fn, "element loop", p.Pos(fn.Pos()), fmt.Sprintf("one unconditional append per %d-octet element, cursor advances by %d", s.step, s.step))
+		// the loop runs until nothing is left: with a field of k*step octets
+		// every successful return is reached with an empty cursor
+		var cursor *ssa.Phi
+		for _, b := range fn.Blocks {
+			for _, in := range b.Instrs {
+				phi, ok := in.(*ssa.Phi)
+				if !ok {
+					break
+				}
+				if sl, isSlice := phi.Type().Underlying().(*types.Slice); !isSlice || !inLoopLocal(b) || typeKey(sl.Elem()) != "byte" && typeKey(sl.Elem()) != "uint8" {
+					continue
+				}
+				for i, e := range phi.Edges {
+					if b.Dominates(b.Preds[i]) {
+						if x, isS := e.(*ssa.Slice); isS && x.X == ssa.Value(phi) {
+							cursor = phi
+						}
+					}
+				}
+			}
+		}
+		if cursor != nil {
+			var bp *ssa.Parameter
+			for i, e := range cursor.Edges {
+				if !cursor.Block().Dominates(cursor.Block().Preds[i]) {
+					bp, _ = e.(*ssa.Parameter)
+				}
+			}
+			if bp != nil {
+				a := NewAnalysis(p, fn)
+				bE := mkLeaf("param", bp.Name(), bp.Type())
+				modKey := mkBin(token.REM, mkLen(bE), mkConst(s.step, intT), intT, intT).Key
+				a.Init = func(a *Analysis, st *State) {
+					st.rng[mkLen(bE).Key] = isRange(s.step, posInf)
+					st.rng[modKey] = isConst(0)
+				}
+				a.Run()
+				leaf := mkLeaf("phi", cursor.Name(), cursor.Type())
+				okE, nret := true, 0
+				for _, r := range a.Returns {
+					if len(r.Results) == 0 || !r.Results[len(r.Results)-1].IsNil() {
+						continue
+					}
+					nret++
+					if v, isC := r.State.rangeOf(mkLen(leaf)).IsConst(); !isC || v != 0 {
+						okE = false
+					}
+				}
+				c.require(okE && nret > 0, rule, s.fn, "whole field consumed", p.Pos(fn.Pos()),
+					fmt.Sprintf("for a field of k*%d octets the element loop ends only when nothing is left (no element is dropped)", s.step))
+			}
+		}
 	}
 }
 
@@ -573,4 +660,41 @@ func (c *Check) ignoredErrorBeliefs(rule string, fns []string) {
 		}
 	}
 	c.floor(rule, n, 1, "call sites that discard a helper's error")
+	// the same belief about the library: netip.AddrFromSlice(x) with its ok
+	// result discarded yields the zero Addr unless len(x) is 4 or 16
+	for _, name := range fns {
+		fn := p.Fn(name)
+		if fn == nil {
+			continue
+		}
+		var sites []*ssa.Call
+		allInstrs(fn, func(in ssa.Instruction) {
+			call, ok := in.(*ssa.Call)
+			if !ok || p.calleeDesc(call) != "netip.AddrFromSlice" {
+				return
+			}
+			used := false
+			for _, r := range *call.Referrers() {
+				if ex, ok := r.(*ssa.Extract); ok && ex.Index == 1 && len(*ex.Referrers()) > 0 {
+					used = true
+				}
+			}
+			if !used {
+				sites = append(sites, call)
+			}
+		})
+		if len(sites) == 0 {
+			continue
+		}
+		a := NewAnalysis(p, fn)
+		a.Run()
+		for _, call := range sites {
+			for _, st := range a.At[call] {
+				args := a.argExprs(st, nil, call.Common())
+				r := st.rangeOf(mkLen(args[0]))
+				c.require(r.SubsetOf(isConst(4).Union(isConst(16))), rule, name, "discarded ok of netip.AddrFromSlice", p.InstrPos(call),
+					"the slice handed over has length "+r.String()+"; only 4 or 16 octets make an address (anything else silently becomes the zero Addr)")
+			}
+		}
+	}
 }
